@@ -218,16 +218,39 @@ pub fn trace(seed: u64, n: usize) -> Vec<J> {
                          noise: vec!["", "host= bytes=1 id=2 load=3", "host=h1 bytes=x id=1 load=1"],
                          combine: None });       // (the combination law adds sums in TLC's 32-bit integers)
     }
+    // a synthetic corpus at scale: 1 700 lines over 1 301 keys in scrambled order (some four hundred recur far apart), values 0..6 -- more groups, distinct rows
+    // and distinct values than any in-memory shortcut of the code is sized for; taken whole, once per trace
+    let n_small = cs.len();
+    {
+        let defs = ctx.dir.join("many_defs.txt");
+        std::fs::write(&defs, "CREATE TABLE big(line = 'k=([a-z0-9]+) v=(-?[0-9]+)', line[1] => k TEXT, line[2] => v INT);").unwrap();
+        let data = ctx.dir.join("many_data.txt");
+        let mut s = String::new();
+        for i in 1..=1700usize { s.push_str(&format!("k=g{} v={}\n", (i * 37) % 1301, i % 7)); }
+        std::fs::write(&data, s).unwrap();
+        cs.push(Corpus { name: "manykeys", defs: Box::leak(defs.to_str().unwrap().to_string().into_boxed_str()), data: Box::leak(data.to_str().unwrap().to_string().into_boxed_str()),
+                         queries: vec![
+                             q("SELECT DISTINCT MAX(v) AS m, COUNT(*) AS c FROM big GROUP BY k", true, true),
+                             q("SELECT k, COUNT(*) AS n FROM big GROUP BY k", true, true),
+                             q("SELECT k, SUM(v) AS s FROM big GROUP BY k HAVING COUNT(*) >= 2", true, true),
+                             q("SELECT DISTINCT k FROM big", false, false),
+                             q("SELECT COUNT(DISTINCT k) AS d, COUNT(DISTINCT v) AS dv, PERCENTILE(v, 0.999) AS p FROM big", true, true),
+                             q("SELECT DISTINCT COUNT(*) AS c FROM big GROUP BY k", true, true),
+                         ],
+                         noise: vec!["", "k= v=1", "k=g1 v=x"],
+                         combine: None });
+    }
     let none = json!({"at": "none", "n": 0});
     let mut ev = Vec::new();
     for round in 0..n {
-        let c = &cs[rng.gen_range(0..cs.len())];
+        let whole = round >= 1 && round <= cs[n_small].queries.len();       // rounds 1..6: the corpus at scale, once under each of its queries
+        let c = if whole { &cs[n_small] } else { &cs[rng.gen_range(0..n_small)] };
         let tables = setup_tables(&std::fs::read_to_string(c.defs).unwrap()).unwrap();
         let all: Vec<String> = std::fs::read_to_string(c.data).unwrap().lines().map(|l| l.to_string()).collect();
-        let len = rng.gen_range(1..=std::cmp::min(all.len(), 40));
+        let len = if whole { all.len() } else { rng.gen_range(1..=std::cmp::min(all.len(), 40)) };
         let start = rng.gen_range(0..=all.len() - len);
         let lines: Vec<String> = all[start..start + len].to_vec();
-        let qu = &c.queries[rng.gen_range(0..c.queries.len())];
+        let qu = if whole { &c.queries[round - 1] } else { &c.queries[rng.gen_range(0..c.queries.len())] };
         tick(&json!({"round": round, "corpus": c.name, "query": qu.sql}));
 
         let (base, status, _) = run(&mut ctx, &tables, qu.sql, &[&lines], &none);
@@ -255,9 +278,11 @@ pub fn trace(seed: u64, n: usize) -> Vec<J> {
         ev.push(json!({"ev": "law", "law": "layout", "status": st, "out": o, "text": lq}));
 
         // C07 limit
-        let inc = incremental(&tables, qu.sql, &lines, qu.agg);
-        for nlim in [0usize, 1, 2, base.len(), base.len() + 2] {
+        let inc = if whole && qu.agg { None } else { incremental(&tables, qu.sql, &lines, qu.agg) };
+        // (the "LIMIT <huge>" idiom for "everything": the number is not related to the size of anything)
+        for nlim in [0usize, 1, 2, base.len(), base.len() + 2, i64::MAX as usize, 1usize << 62] {
             let lq = format!("{} LIMIT {}", qu.sql, nlim);
+            let nlim = std::cmp::min(nlim, 2000000000);        // as TLC reads it (32-bit integers): still beyond every output
             let (o, st, consumed) = run(&mut ctx, &tables, &lq, &[&lines[..c1], &lines[c1..]], &none);
             let needed = match (&inc, qu.agg) {
                 (Some((_, per)), false) => { let mut cum = 0; let mut need = if nlim == 0 { 0 } else { per.len() };
@@ -269,7 +294,7 @@ pub fn trace(seed: u64, n: usize) -> Vec<J> {
 
         // C11 prefix
         for k in [1usize, lines.len() / 2, lines.len()] {
-            if k == 0 || k > lines.len() { continue; }
+            if k == 0 || k > lines.len() || (whole && k != lines.len() / 2) { continue; }
             if let Some((incr, _)) = incremental(&tables, qu.sql, &lines[..k], qu.agg) {
                 let (b, st, _) = run(&mut ctx, &tables, qu.sql, &[&lines[..k]], &none);
                 if st == "ok" { ev.push(json!({"ev": "law", "law": "prefix", "k": k, "incr": incr, "batch": b})); }
